@@ -122,10 +122,15 @@ claim("C15", "exploration", T2 + " (exhaustive small scope); filter-composition 
       "Bounded, exhaustive (deciding): every ordered tree with <= 9 (thorough 11) nodes x every start node x 7 filters x every iterator of Tree and Node against recursive "
       "reference definitions; apply() bracket words. T1: internal-node / internal-edge / leaf filter lambdas == (non-leaf and (seed allowed or has parent) and user filter).",
       "visit ORDER of the stack generators needs induction over recursive sequence functions (DESIGN.md section 6): bounded only", "DESIGN.md section 5 C15")
-claim("C17", "exploration", T2,
-      "Bounded: ultrametric and perturbed trees (exact boundary of the precision), every forcing option and route, lineages at every level, all statistics x normalisations against "
-      "independent definitions, child-order invariance, recompute-after-edit.",
-      "bounded stand-in only for this property in this build; floating point tolerated as stated", "DESIGN.md section 5 C17")
+claim("C17", "proof", T1 + " (heap theory B with a traversal view, reals for floats, list slices, try/except TypeError); " + T2,
+      "Proved (T1, ages and the ultrametricity verdict): at a normal return of Tree.calc_node_ages (no forcing, no caller-supplied age function) every leaf has age 0.0, every internal "
+      "node has the age of its first child plus that child's edge length (a missing length counts 0), and when the check is on (precision a non-negative number) every other child "
+      "gives the same age to within the precision; when UltrametricityError is raised some node's children disagree by more than the precision -- never otherwise, and no other "
+      "exception escapes. Bounded (T2, deciding for the rest): ages equal distances to the tips, depths, set_edge_lengths_from_node_ages, num_lineages_at, forcing options, "
+      "both sides of every precision natively, every statistic x normalisation against independent definitions, child-order invariance.",
+      "ASSUMED: postorder_node_iter yields every node once, children before parents (C15); tree well-formedness (C03); floats are reals; forcing options, set_node_age_fn, "
+      "the statistics of treemeasure are bounded only",
+      "DESIGN.md section 5 C17, section 9")
 claim("C19", "proof", T1 + " (loop measures over length-modelled lists, guard-progress effect scan, Lean 4 + Mathlib lemma); " + T2,
       "Proved (T1): termination and exact growth of CharacterDataSequence.set_at; every while loop of charmatrixmodel.py can change its guard or leave; the concatenate "
       "label loop terminates (step + frame obligations on the AST, Lean lemma injective_escapes_finite). Bounded (T2): row-set algebra, padding, column selection, "
